@@ -23,6 +23,14 @@ def c12(run):
                                  invariants=["ImplRefinesProp", "AutoVowelInv", "Emit"]),
                             "C12", workers=4, threads=8)
     run.add(tlc, s)
+    d2 = 5 if run.quick() else 6
+    tlc, s = run_tlc_replay(run, "MC_Fixed_small", "MC_Fixed.tla",
+                            dict(spec="Spec", constants={"Depth": d2, "Alphabet": '"small"'},
+                                 invariants=["ImplRefinesProp", "Emit"]),
+                            "C12", workers=6, threads=8)
+    run.add(tlc, s)
+    run.rule += ("  ||  and every history to depth %d over the 8 values the priority chain itself distinguishes (consonant, three vowel signs, hasanta, chandrabindu, digit, "
+                 "punctuation) x 16 settings" % d2)
     fixed_trace(run, "compose")
     run.assumptions += ["class representatives stand for their class (one consonant etc.); edge characters on which "
                         "riti's tables and the Unicode chart differ are outside the normative alphabet",
